@@ -323,6 +323,7 @@ func c07(p *core.Program, r *core.Report) {
 	})
 
 	decodeDestinationFreshRule(p, r, "decode-destination-fresh")
+	bboxStoredAsGivenRule(p, r, "bbox-stored-as-given")
 
 	// ---- rule 3b: the first element of a decoded array is read only where the array is known to be non-empty
 	const r3b = "first-element-guarded"
